@@ -2,6 +2,9 @@
 UNITS_CORE = ["contracts.units_fraction", "contracts.units_magnitude", "contracts.units_convert"]
 UNITS_ALL = UNITS_CORE + ["contracts.units_quantity", "contracts.units_frames", "contracts.units_nonlinear"]
 PROPS = {
+    "C09": dict(contracts=["contracts.units_environment"], bounded="bounded.c09", level="proof",
+                assumptions=["the number and kind of units registered by a scope is enumerated by the scenarios (0-3 units: plain, prefixed, quantity-valued, with existing/new conversion type, duplicate, prefixed clash, malformed); magnitudes are symbolic",
+                             "the six DIP call sites are `with UnitEnvironment(env.units):` blocks and are covered through the constructor/exit contracts plus the bounded stand-in (DIP texts)"]),
     "C06": dict(contracts=UNITS_ALL, bounded="bounded.c06", level="proof",
                 assumptions=["pow(x,y) for a non-integer exponent is an uninterpreted real function; 'base value of a power = power of the base value' additionally needs pow(x*f,p)=pow(x,p)*pow(f,p), which is assumed, not proved",
                              "unit structure is enumerated (pairs from the published tables), magnitudes are symbolic"]),
